@@ -222,6 +222,23 @@ static void t25_cb(void *dummy)
 	all_done_check();
 }
 
+static int create_faults_left;
+static int create_fault(void)
+{
+	int i, live = 0;
+	/* thread creation may fail transiently (EAGAIN), but only while another worker exists to take the work */
+	for (i = 1; i < sched_nthreads(); i++)
+		live += !sched_finished(i) && !thread_stops[i];
+	if (!create_faults_left || !live)
+		return 0;
+	if (mc_choose(2, MC_FAULT, "pthread_create-EAGAIN")) {
+		create_faults_left--;
+		mc_obs("pthread_create=EAGAIN");
+		return EAGAIN;
+	}
+	return 0;
+}
+
 static int quiescent(void)
 {
 	int i;
@@ -257,6 +274,9 @@ static void exec_one(void)
 	sched_on_quiescence = quiescent;
 	sched_fault_eintr = mc_arg_int("eintr", 0);
 	sched_max_points = mc_arg_int("maxpoints", 5000);
+	create_faults_left = mc_arg_int("create_faults", 0);
+	if (create_faults_left)
+		sched_create_fault = create_fault;
 	np = parse_list(mc_arg("progs", "0-8"), pl, 16);
 	nu = parse_list(mc_arg("puts", "0-4"), ul, 8);
 	nm = parse_list(mc_arg("methods", "0,2"), ml, 4);
